@@ -19,8 +19,16 @@ fn setof(v: &Value) -> Vec<usize> {
 fn main() {
     quiet_panics();
     let a = args();
-    let weights: Vec<u64> = a[2].split(',').map(|x| x.parse().unwrap()).collect();
-    let c = Committee::new(&weights, 9);
+    // "3,1,1n,1": a trailing n marks a member that is not leader-eligible (irrelevant for quorums: they are over the TOTAL weight)
+    let nonleader: Vec<bool> = a[2].split(',').map(|x| x.ends_with('n')).collect();
+    let weights: Vec<u64> = a[2].split(',').map(|x| x.trim_end_matches('n').parse().unwrap()).collect();
+    let mut c = Committee::new(&weights, 9);
+    if nonleader.iter().any(|x| *x) {
+        let infos: Vec<validator::ValidatorInfo> = c.keys.iter().zip(&weights).zip(&nonleader).map(|((k, w), nl)| validator::ValidatorInfo { key: k.public(), weight: *w, leader: !*nl }).collect();
+        // positions are by key order in both schedules, so the abstraction stays valid
+        c.schedule = validator::Schedule::new(infos, validator::LeaderSelection { frequency: 1, mode: validator::LeaderSelectionMode::RoundRobin }).unwrap();
+        c.genesis = validator::GenesisRaw { chain_id: validator::ChainId(1337), fork_number: validator::ForkNumber(0), protocol_version: validator::ProtocolVersion::CURRENT, first_block: validator::BlockNumber(0), validators_schedule: Some(c.schedule.clone()) }.with_hash();
+    }
     let other = Committee::new(&[1, 1], 777); // another chain
     let f = Forge { c: &c };
     let n = c.n();
